@@ -282,7 +282,12 @@ def main(prop, tier, replay, njobs):
     tb = time.time() - t0
     # longest first
     order = sorted(jobs, key=lambda j: -j.weight)
-    results = list(pool.map(lambda j: run_job(j, j._exe, logdir), order))
+    def _safe(j):
+        try:
+            return run_job(j, j._exe, logdir)
+        except Exception as ex:      # e.g. fork failure under resource exhaustion: an infrastructure error of this job, not a crash of the driver
+            return {"job": j, "rc": None, "done": None, "err": "driver could not run the job: %r" % (ex,), "stats": {}, "samples": [], "outcomes": set(), "viols": [], "notes": [], "wall": 0.0}
+    results = list(pool.map(_safe, order))
 
     stats, samples, outcomes, viols, notes = {}, [], set(), [], []
     exhaustive, infra = True, []
